@@ -271,7 +271,8 @@ void NamespaceScope::expandMap(StackElem* const toExpand)
     //  since this is a by value map and the current map index controls what
     //  is relevant.
     //
-    memcpy(newMap, toExpand->fMap, oldCap * sizeof(PrefMapElem));
+    if (oldCap)
+        memcpy(newMap, toExpand->fMap, oldCap * sizeof(PrefMapElem));
 
     // Delete the old map and store the new stuff
     fMemoryManager->deallocate(toExpand->fMap);//delete [] toExpand->fMap;
